@@ -317,10 +317,7 @@ func (pi *pkgInstr) rewriteFile(fe *fileEdits) {
 				}
 			}
 		case *ast.GoStmt:
-			if pi.o.KeepGoIn[pi.dir] {
-				return true
-			}
-			pi.rewriteGo(fe, x)
+			pi.rewriteGo(fe, x, pi.o.KeepGoIn[pi.dir])
 		case *ast.RangeStmt:
 			pi.rewriteRange(fe, x)
 		}
@@ -344,7 +341,12 @@ func (pi *pkgInstr) rewriteFile(fe *fileEdits) {
 	}
 }
 
-func (pi *pkgInstr) rewriteGo(fe *fileEdits, g *ast.GoStmt) {
+func (pi *pkgInstr) rewriteGo(fe *fileEdits, g *ast.GoStmt, helper bool) {
+	fn := "vsched.Go"
+	if helper {
+		// free-running helper goroutine owned by the spawning thread
+		fn = "vsched.GoHelper"
+	}
 	call := g.Call
 	// builtin or conversion targets cannot be bound to a value: leave alone
 	if tv, ok := pi.info.Types[call.Fun]; ok && (tv.IsBuiltin() || tv.IsType()) {
@@ -366,7 +368,7 @@ func (pi *pkgInstr) rewriteGo(fe *fileEdits, g *ast.GoStmt) {
 	if call.Ellipsis.IsValid() {
 		ell = "..."
 	}
-	fmt.Fprintf(&b, "; vsched.Go(func() { _vf(%s%s) }) }", strings.Join(args, ", "), ell)
+	fmt.Fprintf(&b, "; %s(func() { _vf(%s%s) }) }", fn, strings.Join(args, ", "), ell)
 	fe.replace(pi.off(call.Fun.End()), pi.off(g.End()), b.String())
 	fe.needV = true
 	pi.sum.GoStmts++
